@@ -35,6 +35,10 @@ func (m *abridged) WriteMsg(msg []byte) error {
 	var size []byte
 
 	msgLength := len(msg) / tl.WordLen
+	if msgLength >= 1<<24 {
+		// the length field holds three bytes: a longer message can't be framed
+		return fmt.Errorf("message is too large for abridged mode: %d bytes", len(msg))
+	}
 	if msgLength < int(magicValueSizeMoreThanSingleByte) {
 		size = []byte{byte(msgLength)}
 	} else {
